@@ -49,9 +49,9 @@ class FirstExceptionInAll:
         self.result = result
         self.inputs = inputs
 
-    def __bool__(self) -> Any:
-        """Return the result of the ELT evaluation which invalidated the ``all`` quantifier."""
-        return self.result
+    def __bool__(self) -> bool:
+        """Return the truth value of the ELT evaluation which invalidated the ``all`` quantifier."""
+        return bool(self.result)
 
 
 ContextT = TypeVar("ContextT", bound=ast.expr_context)
@@ -742,6 +742,12 @@ class Visitor(ast.NodeVisitor):
         assert result is not PLACEHOLDER
 
         self.recomputed_values[node] = result
+
+        if isinstance(result, FirstExceptionInAll):
+            # The first exception is recorded only for the representation of this call. The enclosing expressions
+            # must be re-computed with the value of the call as computed by Python.
+            return False
+
         if inspect.iscoroutine(result):
             raise ValueError(
                 ("Unexpected coroutine {} as a result from a call. "
